@@ -73,7 +73,10 @@ static inline const std::vector<std::string>& leaf_alphabet() {
                         "0x1", "00", "-01", "1.e1", "1.5e", "0e0", "0e-0", "0.e1", "123456789012345678901234567890",
                         "0.1e-1", "1E+2", "-1.5E+2", "2.5", "12345678901234567", "1.2345678901234567e-5",
                         // subnormal / extreme doubles (short spellings reach the fast float paths)
-                        "1e-310", "2.5e-320", "1.5e-308", "4.9e-324", "1.7976931348623157e308", "1797693134862315808e290", "0.00000000000000000000000000000"};
+                        "1e-310", "2.5e-320", "1.5e-308", "4.9e-324", "1.7976931348623157e308", "1797693134862315808e290", "0.00000000000000000000000000000",
+                        // exact ties between two adjacent doubles written with few digits in exponent / fraction form (the fast
+                        // float paths must round them to even, or hand them on)
+                        "9007199254740993e0", "9.007199254740993e15", "1.8014398509481986e16", "7205759403792804e1", "9007199254740995e0", "5764607523034235e2", "4503599627370497.5", "1e23", "8.5e22"};
   for (auto s : nums) v.push_back(s);
   const char* lits[] = {"false", "null", "tru", "nul", "fals", "truex", "nulll", "True", "falsE", "n", "t", "f"};
   for (auto s : lits) v.push_back(s);
@@ -621,6 +624,37 @@ static inline TextFamily make_LU() {
     }
     std::string lit = "\"" + plain(off) + esc + "\"";
     out = ctxk == 0 ? lit : ctxk == 1 ? "[" + lit + ",1]" : "{" + lit + ":" + lit + "}";
+    return true;
+  };
+  return f;
+}
+
+// LD: every byte value in every hex-digit slot of a \u escape (single and surrogate pair), the escape standing
+// behind a lead that decides which code path meets it: other escapes (an escaped quote, backslash, \n, \u0041 and
+// two of them) or a run of 1..70 plain bytes (the digits on either side of every 16 / 32 / 64-byte block end)
+static inline TextFamily make_LD() {
+  TextFamily f;
+  auto leads = std::make_shared<std::vector<std::string>>();
+  for (const char* e : {"", "\\\"", "\\\\", "\\n", "\\u0041", "\\\"\\\\", "\\u00e9\\\""}) leads->push_back(e);
+  for (unsigned k = 1; k <= 70; k++) leads->push_back(plain(k));
+  f.meta.name = "LD_escape_digit_bytes";
+  f.meta.count = (uint64_t)leads->size() * 12 * 256 * 2;
+  f.meta.group = "LD";
+  f.meta.chunk = 2048;
+  f.meta.rule = "every byte 0..255 in each of the 4 digit slots of \\u00e9 and the 8 of \\ud83d\\ude00, the escape behind " + std::to_string(leads->size()) +
+                " leads (nothing, an escaped quote / backslash / \\n / \\u0041, two escapes, and 1..70 plain bytes), as root string and as object key: accepted iff the byte is a hex digit (and the pair stays a pair)";
+  f.gen = [leads](uint64_t idx, std::string& out) {
+    unsigned key = (unsigned)(idx % 2);
+    idx /= 2;
+    unsigned byte = (unsigned)(idx % 256);
+    idx /= 256;
+    unsigned slot = (unsigned)(idx % 12);
+    const std::string& lead = (*leads)[idx / 12];
+    std::string esc = slot < 4 ? "\\u00e9" : "\\ud83d\\ude00";
+    size_t pos = slot < 4 ? 2 + slot : slot < 8 ? 2 + (slot - 4) : 8 + (slot - 8);
+    esc[pos] = (char)byte;
+    std::string lit = "\"" + lead + esc + "\"";
+    out = key ? "{" + lit + ":1}" : lit;
     return true;
   };
   return f;
